@@ -237,6 +237,21 @@ impl Default for ValidatorParser {
     }
 }
 
+/// Verification hooks: public access to the private token-string parsers (compiled only with
+/// `--cfg thwbh_tauri_typegen_verif`)
+#[cfg(thwbh_tauri_typegen_verif)]
+impl ValidatorParser {
+    pub fn verif_parse_length_from_tokens(&self, tokens: &str) -> Option<LengthConstraint> {
+        self.parse_length_from_tokens(tokens)
+    }
+    pub fn verif_parse_range_from_tokens(&self, tokens: &str) -> Option<RangeConstraint> {
+        self.parse_range_from_tokens(tokens)
+    }
+    pub fn verif_parse_message_from_content(&self, content: &str) -> Option<String> {
+        self.parse_message_from_content(content)
+    }
+}
+
 #[cfg(test)]
 mod tests {
     use super::*;
